@@ -45,16 +45,16 @@ package ignore
 //@   props C07 C17 C12 C10
 //@   requires fset != nil
 //@   ensures !found ==> start == 0 && end == 0
-//@   ensures found ==> fset.File(comment.Pos()) != nil && start == fset.File(comment.Pos()).LineStart(fset.Position(comment.Pos()).Line) && end == comment.End()
-//@   ensures found ==> (exists d int :: 0 <= d && d < len(file.Decls) && ((file.Decls[d].End() <= comment.Pos() && fset.Position(file.Decls[d].End()).Line == fset.Position(comment.Pos()).Line) || (exists n ast.Node :: n != nil && inspIn(n, file.Decls[d]) && n.Pos() < comment.Pos() && fset.Position(n.End()).Line == fset.Position(comment.Pos()).Line)))
+//@   ensures found ==> fset.File(comment.Pos()) != nil && start == fset.File(comment.Pos()).LineStart(fset.PositionFor(comment.Pos(), false).Line) && end == comment.End()
+//@   ensures found ==> (exists d int :: 0 <= d && d < len(file.Decls) && ((file.Decls[d].End() <= comment.Pos() && fset.PositionFor(file.Decls[d].End(), false).Line == fset.PositionFor(comment.Pos(), false).Line) || (exists n ast.Node :: n != nil && inspIn(n, file.Decls[d]) && n.Pos() < comment.Pos() && fset.PositionFor(n.End(), false).Line == fset.PositionFor(comment.Pos(), false).Line)))
 // a comment that directly follows a top-level declaration on that declaration's last line is inline (partial completeness)
-//@   ensures fset.File(comment.Pos()) != nil && (exists d int :: 0 <= d && d < len(file.Decls) && file.Decls[d].End() <= comment.Pos() && fset.Position(file.Decls[d].End()).Line == fset.Position(comment.Pos()).Line && (d + 1 >= len(file.Decls) || comment.Pos() < file.Decls[d+1].Pos())) ==> found
+//@   ensures fset.File(comment.Pos()) != nil && (exists d int :: 0 <= d && d < len(file.Decls) && file.Decls[d].End() <= comment.Pos() && fset.PositionFor(file.Decls[d].End(), false).Line == fset.PositionFor(comment.Pos(), false).Line && (d + 1 >= len(file.Decls) || comment.Pos() < file.Decls[d+1].Pos())) ==> found
 // ... and so is a comment inside a declaration when some node of that declaration starts before it and ends on its line
-//@   ensures forall d int, n ast.Node :: fset.File(comment.Pos()) != nil && 0 <= d && d < len(file.Decls) && file.Decls[d].Pos() <= comment.Pos() && comment.Pos() < file.Decls[d].End() && n != nil && inspIn(n, file.Decls[d]) && n.Pos() < comment.Pos() && fset.Position(n.End()).Line == fset.Position(comment.Pos()).Line ==> found
+//@   ensures forall d int, n ast.Node :: fset.File(comment.Pos()) != nil && 0 <= d && d < len(file.Decls) && file.Decls[d].Pos() <= comment.Pos() && comment.Pos() < file.Decls[d].End() && n != nil && inspIn(n, file.Decls[d]) && n.Pos() < comment.Pos() && fset.PositionFor(n.End(), false).Line == fset.PositionFor(comment.Pos(), false).Line ==> found
 //@   assigns nothing
-//@   at call ast.Inspect#1 prunes $node.Pos() >= commentPos || fset.Position($node.End()).Line == commentLine
-//@   at call ast.Inspect#1 invariant !hasCodeOnLine ==> (forall k int :: 0 <= k && k < $i && $seq[k] != nil && $seq[k].Pos() < commentPos ==> fset.Position($seq[k].End()).Line != commentLine)
-//@   at call ast.Inspect#1 invariant hasCodeOnLine ==> (exists n ast.Node :: n != nil && inspIn(n, decl) && n.Pos() < commentPos && fset.Position(n.End()).Line == commentLine)
+//@   at call ast.Inspect#1 prunes $node.Pos() >= commentPos || fset.PositionFor($node.End(), false).Line == commentLine
+//@   at call ast.Inspect#1 invariant !hasCodeOnLine ==> (forall k int :: 0 <= k && k < $i && $seq[k] != nil && $seq[k].Pos() < commentPos ==> fset.PositionFor($seq[k].End(), false).Line != commentLine)
+//@   at call ast.Inspect#1 invariant hasCodeOnLine ==> (exists n ast.Node :: n != nil && inspIn(n, decl) && n.Pos() < commentPos && fset.PositionFor(n.End(), false).Line == commentLine)
 
 // Pre-filters never hide a match (ASSUMED here; the first is discharged as language inclusion by the check of C15,
 // obligation relang/ignore.ignoreRegex/prefilter; the second is the ahocorasick contract for the dictionary {"@ignore"}).
@@ -67,8 +67,8 @@ package ignore
 //@ macro func isIgnoreLine(text string) bool = reMatches(ignoreRegex, text) && listAny(ignCodesOf(text))
 // the scope [lo, hi] the reader gives comment cm of file f: the whole file before the package clause; the comment's own line
 // when it trails code; otherwise from the comment to the end of the declaration / node found after it (or of the comment)
-//@ macro func trailsCode(pass *analysis.Pass, f *ast.File, cm *ast.Comment) bool = exists d int :: 0 <= d && d < len(f.Decls) && ((f.Decls[d].End() <= cm.Pos() && pass.Fset.Position(f.Decls[d].End()).Line == pass.Fset.Position(cm.Pos()).Line) || (exists n ast.Node :: n != nil && inspIn(n, f.Decls[d]) && n.Pos() < cm.Pos() && pass.Fset.Position(n.End()).Line == pass.Fset.Position(cm.Pos()).Line))
-//@ macro func scopeOK(pass *analysis.Pass, f *ast.File, cm *ast.Comment, lo token.Pos, hi token.Pos) bool = (cm.Pos() < f.Package && lo == cm.Pos() && hi == f.End()) || (cm.Pos() >= f.Package && trailsCode(pass, f, cm) && pass.Fset.File(cm.Pos()) != nil && lo == pass.Fset.File(cm.Pos()).LineStart(pass.Fset.Position(cm.Pos()).Line) && hi == cm.End()) || (cm.Pos() >= f.Package && lo == cm.Pos() && (hi == cm.End() || (exists d int :: 0 <= d && d < len(f.Decls) && f.Decls[d].End() > cm.Pos() && ((cm.Pos() < f.Decls[d].Pos() && hi == f.Decls[d].End()) || (f.Decls[d].Pos() <= cm.Pos() && (exists n ast.Node :: n != nil && inspIn(n, f.Decls[d]) && n.Pos() > cm.Pos() && hi == n.End()))))))
+//@ macro func trailsCode(pass *analysis.Pass, f *ast.File, cm *ast.Comment) bool = exists d int :: 0 <= d && d < len(f.Decls) && ((f.Decls[d].End() <= cm.Pos() && pass.Fset.PositionFor(f.Decls[d].End(), false).Line == pass.Fset.PositionFor(cm.Pos(), false).Line) || (exists n ast.Node :: n != nil && inspIn(n, f.Decls[d]) && n.Pos() < cm.Pos() && pass.Fset.PositionFor(n.End(), false).Line == pass.Fset.PositionFor(cm.Pos(), false).Line))
+//@ macro func scopeOK(pass *analysis.Pass, f *ast.File, cm *ast.Comment, lo token.Pos, hi token.Pos) bool = (cm.Pos() < f.Package && lo == cm.Pos() && hi == f.End()) || (cm.Pos() >= f.Package && trailsCode(pass, f, cm) && pass.Fset.File(cm.Pos()) != nil && lo == pass.Fset.File(cm.Pos()).LineStart(pass.Fset.PositionFor(cm.Pos(), false).Line) && hi == cm.End()) || (cm.Pos() >= f.Package && lo == cm.Pos() && (hi == cm.End() || (exists d int :: 0 <= d && d < len(f.Decls) && f.Decls[d].End() > cm.Pos() && ((cm.Pos() < f.Decls[d].Pos() && hi == f.Decls[d].End()) || (f.Decls[d].Pos() <= cm.Pos() && (exists n ast.Node :: n != nil && inspIn(n, f.Decls[d]) && n.Pos() > cm.Pos() && hi == n.End()))))))
 
 // C07/C08/C14: the suppression set of a package is well-formed (C16's representation invariant), its global tokens are
 // exactly the configured exclude-checks, and every scoped marker that is added comes from an @ignore line of a kept file
